@@ -217,3 +217,80 @@ def extend (ssss : Nat) (bits : Int) : Int :=
   if ssss = 0 then 0 else if bits < (2 : Int) ^ (ssss - 1) then bits + (-((2 : Int) ^ ssss) + 1) else bits
 
 end Dct
+
+/-!
+  ## Functional form of the 2-D glue (the one the block-level theorem is about; tied by `jpg-fdct`, `jpg-idct`,
+  `jpg-blockbound`): a block is a function row → column → value; the GENERATED 1-D passes are applied to the eight
+  rows / columns exactly as the loops of DCTISlow / quantizeBlock / IDCTISlow do (stride 8).
+-/
+namespace Dct
+open Gen.JpegStd Gen.JpegBaseline
+
+abbrev T8 := Int × Int × Int × Int × Int × Int × Int × Int
+abbrev Blk := Nat → Nat → Int
+
+def sel8 : T8 → Nat → Int
+  | (a, _, _, _, _, _, _, _), 0 => a
+  | (_, b, _, _, _, _, _, _), 1 => b
+  | (_, _, c, _, _, _, _, _), 2 => c
+  | (_, _, _, d, _, _, _, _), 3 => d
+  | (_, _, _, _, e, _, _, _), 4 => e
+  | (_, _, _, _, _, f, _, _), 5 => f
+  | (_, _, _, _, _, _, g, _), 6 => g
+  | (_, _, _, _, _, _, _, h), _ => h
+
+/-- position of frequency k in the result tuple of the forward passes (stored elements 0,4,2,6,7,5,3,1) -/
+def fwdPos : Nat → Nat
+  | 0 => 0 | 4 => 1 | 2 => 2 | 6 => 3 | 7 => 4 | 5 => 5 | 3 => 6 | _ => 7
+/-- position of sample x in the result tuple of the inverse passes (stored elements 0,7,1,6,2,5,3,4) -/
+def invPos : Nat → Nat
+  | 0 => 0 | 7 => 1 | 1 => 2 | 6 => 3 | 2 => 4 | 5 => 5 | 3 => 6 | _ => 7
+
+def rowF (d : Blk) : Blk := fun y k =>
+  sel8 (DCTISlow.row 8 y (d y 0) (d y 7) (d y 1) (d y 6) (d y 2) (d y 5) (d y 3) (d y 4)) (fwdPos k)
+def colF (r : Blk) : Blk := fun v k =>
+  sel8 (DCTISlow.col 8 k (r 0 k) (r 7 k) (r 1 k) (r 6 k) (r 2 k) (r 5 k) (r 3 k) (r 4 k) 0 0 0 0 0 0 0 0) (fwdPos v)
+def quantF (c q : Blk) : Blk := fun v k => quantizeBlock.entry default 0 0 0 0 ((v * 8 + k : Nat) : Int) (q v k) (c v k)
+def icolF (qc q : Blk) : Blk := fun y k =>
+  sel8 (IDCTISlow.col 8 k (qc 2 k) (q 2 k) (qc 6 k) (q 6 k) (qc 0 k) (q 0 k) (qc 4 k) (q 4 k)
+    (qc 7 k) (q 7 k) (qc 5 k) (q 5 k) (qc 3 k) (q 3 k) (qc 1 k) (q 1 k) 0 0 0 0 0 0 0 0) (invPos y)
+def irowF (ws : Blk) : Blk := fun y x =>
+  sel8 (IDCTISlow.row 8 y (ws y 2) (ws y 6) (ws y 0) (ws y 4) (ws y 7) (ws y 5) (ws y 3) (ws y 1) 0 0 0 0 0 0 0 0) (invPos x)
+
+/-- DCTISlow on a block of bytes (level shift, rows, columns) -/
+def fdctF (blk : Blk) : Blk := colF (rowF (fun y j => blk y j - 128))
+/-- IDCTISlow (dequantise + columns, rows, +128, clamp, byte) -/
+def idctF (qc q : Blk) : Blk := irowF (icolF qc q)
+/-- encoder block pipeline followed by the decoder block pipeline -/
+def blockF (blk q : Blk) : Blk := idctF (quantF (fdctF blk) q) q
+
+def sum7 (f : Nat → Int) : Int := f 1 + f 2 + f 3 + f 4 + f 5 + f 6 + f 7
+/-- Σ of the table entries with exactly one zero frequency / with both frequencies non-zero -/
+def Mq (q : Blk) : Int := sum7 (fun k => q 0 k) + sum7 (fun v => q v 0)
+def Rq (q : Blk) : Int := sum7 (fun v => sum7 (fun k => q v k))
+
+/-- the property's per-sample bound  8·(|δ| − 2) ≤ Σ C(u)C(v)·Q[u,v]  (C(0) = 1/√2), stated exactly in integers:
+    X = 16(|δ|−2) − Q00 − 2R ≤ √2·M  ⇔  X ≤ 0 ∨ X² ≤ 2M² -/
+def withinF (delta : Int) (q : Blk) : Prop :=
+  16 * (Go.abs delta - 2) - q 0 0 - 2 * Rq q ≤ 0 ∨
+  (16 * (Go.abs delta - 2) - q 0 0 - 2 * Rq q) * (16 * (Go.abs delta - 2) - q 0 0 - 2 * Rq q) ≤ 2 * (Mq q * Mq q)
+instance (delta : Int) (q : Blk) : Decidable (withinF delta q) := by unfold withinF; infer_instance
+
+/-- interface conversions (driver, image lift): row-major 64-entry arrays ↔ functions.  A table entry outside the
+    array reads as 1, a sample outside as 0; the theorems only look at indices 0..7 × 0..7 of 64-entry arrays. -/
+def blkOfArray (a : Array Int) : Blk := fun y x => (a[y * 8 + x]?).getD 0
+def tableF (t : Array Int) : Blk := fun v k => (t[v * 8 + k]?).getD 1
+def listOfBlk (b : Blk) : List Int := (List.range 64).map fun i => b (i / 8) (i % 8)
+
+/-- Encoder.quantizeBlock's block extraction for a greyscale image `img row col` of `w × h` samples (stride = w):
+    `block[y*8+x] = data[min(blockY*8+y, h-1)*stride + min(blockX*8+x, w-1)]` -/
+def extractBlock (img : Blk) (w h : Int) (bx by' : Nat) : Blk :=
+  fun y x => img (edgeIdx by' y h).toNat (edgeIdx bx x w).toNat
+
+/-- the sample baseline.Decode shows at pixel (X,Y) of a greyscale image encoded with table q — block (X/8, Y/8),
+    in-block position (Y%8, X%8) (convertToPixels, one component) — when the entropy coding layer returns the quantised
+    coefficients unchanged (c15_ac_runlength_roundtrip, c11_category_roundtrip) -/
+def decodedPixel (img : Blk) (w h : Int) (q : Blk) (X Y : Nat) : Int :=
+  blockF (extractBlock img w h (X / 8) (Y / 8)) q (Y % 8) (X % 8)
+
+end Dct
